@@ -43,6 +43,8 @@ def apply(RaggedArray, p, lens, d1, d2, sc, lens2=None, P=None):
         return uf(ra), ra, None
     if kind in ("rr", "rr_bad"):
         rb = mk_ragged(RaggedArray, d2, lens if lens2 is None else lens2, p["dt2"])
+        if p.get("via_astype"):
+            ra, rb = ra.astype(p["dt1"]), rb.astype(p["dt2"])          # operands that are results of a type conversion are checked like any other
         return uf(ra, rb), ra, rb
     if kind in ("rs", "sr"):
         s = _scalar(p["sk"], sc, p["dt2"])
@@ -239,6 +241,8 @@ def jobs(tier, seed):
         for kind in ("rr", "rs", "sr", "rc", "cr"):
             out.append(dict(base, op=op, kind=kind, dt1="int64", dt2="int64", sk="pyint" if kind in ("rs", "sr") else None))
     out.append(dict(base, op="subtract", kind="rr_bad", dt1="int64", dt2="int64"))
+    out.append(dict(base, op="subtract", kind="rr_bad", dt1="int64", dt2="int64", via_astype=True))
+    out.append(dict(base, op="add", kind="rr", dt1="int64", dt2="int64", via_astype=True))
     for op in UNARY:
         out.append(dict(base, op=op, kind="unary", dt1="bool" if op == "logical_not" else "int64", dt2=None))
     out.append(dict(base, op="invert", kind="unary", dt1="bool", dt2=None))
